@@ -65,6 +65,12 @@ pub enum ResolvedRecord {
     AuthoritativeNameError {
         soa_rr: ResourceRecord,
     },
+    /// A referral: the name is at or beneath a delegation point of
+    /// a local authoritative zone.  The `NS` RRs belong in the
+    /// AUTHORITY section of the response, there are no answer RRs.
+    Delegation {
+        ns_rrs: Vec<ResourceRecord>,
+    },
     NonAuthoritative {
         rrs: Vec<ResourceRecord>,
         soa_rr: Option<ResourceRecord>,
@@ -76,6 +82,7 @@ impl ResolvedRecord {
         match self {
             ResolvedRecord::Authoritative { rrs, .. } => rrs,
             ResolvedRecord::AuthoritativeNameError { .. } => Vec::new(),
+            ResolvedRecord::Delegation { .. } => Vec::new(),
             ResolvedRecord::NonAuthoritative { rrs, .. } => rrs,
         }
     }
@@ -84,6 +91,7 @@ impl ResolvedRecord {
         match self {
             ResolvedRecord::Authoritative { soa_rr, .. } => Some(soa_rr),
             ResolvedRecord::AuthoritativeNameError { soa_rr } => Some(soa_rr),
+            ResolvedRecord::Delegation { .. } => None,
             ResolvedRecord::NonAuthoritative { soa_rr, .. } => soa_rr.into(),
         }
     }
